@@ -283,4 +283,6 @@ func main() {
 	}
 	// large.go: inputs around k·64 KiB, 1 MiB and k·4 KiB (own PRNG stream)
 	largeSizes(o, hlib.NewRng(*hlib.FlagSeed, "c15/sizes"))
+	// special.go: special salt / key values × lengths around the hash block; keysets with an un-instantiable key (own PRNG streams)
+	specialValues(o)
 }
